@@ -12,7 +12,7 @@ import (
 )
 
 func init() {
-	register("C11", "Structural clauses that make a filtered view transfer as a self-contained tree: the sender's filesystem is only ever the hard-link-resetting wrapper; filterFS.Open consults, before delegating, every matcher filterFS.Walk consults, with the parent-aware query, and a hidden path yields an error wrapping os.ErrNotExist; the link-reset filter uses one map per walk, records every regular entry, and reports rewritten entries with the rewritten stat; the receiver's validators are wired (shared with C03); the walk prunes a directory only by literal prefix under the prefix-only flag of the right polarity, computed from the patterns of that polarity (shared with C10). The match state an entry inherits is read from the last element of the walk's open-directories stack. Does not decide that the stream is valid for every filter configuration nor walk/open agreement as a semantic statement.", runC11)
+	register("C11", "Structural clauses that make a filtered view transfer as a self-contained tree: the sender's filesystem is only ever the hard-link-resetting wrapper; filterFS.Open consults, before delegating, every matcher filterFS.Walk consults, with the parent-aware query, and a hidden path yields an error wrapping os.ErrNotExist; the link-reset filter uses one map per walk, records every regular entry, and reports rewritten entries with the rewritten stat; the receiver's validators are wired (shared with C03); the walk prunes a directory only by literal prefix under the prefix-only flag of the right polarity, computed from the patterns of that polarity (shared with C10). The match state an entry inherits is read from the last element of the walk's open-directories stack. The set of characters that makes a pattern a wildcard pattern is complete (shared with C10). Does not decide that the stream is valid for every filter configuration nor walk/open agreement as a semantic statement.", runC11)
 }
 
 func runC11(c *Ctx) {
@@ -34,6 +34,9 @@ func runC11(c *Ctx) {
 	// include flag; shared with C10)
 	r10_1(c, "R11.7")
 	r11_8(c, "R11.8")
+	// text-level pruning only for patterns without any metacharacter: the
+	// set of metacharacters is complete (shared with C10)
+	r10_11(c, "R11.9")
 }
 
 // R11.8: the match state an entry inherits is that of its nearest ancestor.
